@@ -258,7 +258,10 @@ fn lib_leg(rep: &mut Report, _bases: &[Base]) {
 // ------------------------------------------------------------------ CLI legs
 
 pub fn cli_clone_args(archive: &str, out: &Path, extra: &[String]) -> Vec<String> {
-    let mut a: Vec<String> = vec!["bita".into(), "clone".into(), "--buffered-chunks".into(), "2".into()];
+    let mut a: Vec<String> = vec!["bita".into(), "clone".into()];
+    if !extra.iter().any(|x| x == "--buffered-chunks") {
+        a.extend(["--buffered-chunks".to_string(), "2".to_string()]);
+    }
     a.extend(extra.iter().cloned());
     a.push(archive.into());
     a.push(out.to_str().unwrap().into());
